@@ -55,13 +55,14 @@ Definition cm_step (c : commitment) (o : cop) : commitment :=
 
 Definition cm_run (c : commitment) (ops : list cop) : commitment := fold_left cm_step ops c.
 
-(* follower side, raft.go appendEntries: "Update the commit index" *)
-Definition follower_commit (commit leaderCommit lastIndex : N) : N :=
-  if (0 <? leaderCommit) && (commit <? leaderCommit) then N.min leaderCommit lastIndex else commit.
+(* follower side, raft.go appendEntries: "Update the commit index" (after the fix: commit): the
+   minimum of LeaderCommit, the last index the request vouches for and the own last index, never backwards *)
+Definition follower_commit (commit leaderCommit lastNew lastIndex : N) : N :=
+  if (0 <? leaderCommit) && (commit <? leaderCommit) then
+    let idx := N.min leaderCommit (N.min lastNew lastIndex) in
+    if commit <? idx then idx else commit
+  else commit.
 
-(* ---------- flat encoding ----------
-   input: cfg, start, then ops: 1 id idx | 2 cfg
-   output: commit index after new and after each op *)
 Fixpoint dec_cops (fuel : nat) (l : list N) : list cop :=
   match fuel with
   | O => []
@@ -91,6 +92,6 @@ Definition run_commitment (inp : list N) : list N :=
 (* component 501: follower commit arithmetic: commit LC last -> commit' *)
 Definition run_follower_commit (inp : list N) : list N :=
   match inp with
-  | c :: lc :: last :: _ => [follower_commit c lc last]
+  | c :: lc :: ln :: last :: _ => [follower_commit c lc ln last]
   | _ => []
   end.
